@@ -484,7 +484,7 @@ func c17xGate(w []string) string {
 			hang := false
 			select {
 			case <-done:
-			case <-time.After(3 * time.Second):
+			case <-time.After(20 * time.Second):
 				hang = true
 			}
 			if hang {
